@@ -83,6 +83,10 @@ impl Explorer<'_> {
                 caps.push(format!("{}: wall-clock budget reached after completing depth {}", self.name, depth));
                 break;
             }
+            if rss_gb() > rss_cap_gb() {
+                caps.push(format!("{}: resident-memory cap {} GiB reached after completing depth {}", self.name, rss_cap_gb(), depth));
+                break;
+            }
             if ctx.vio_count.load(std::sync::atomic::Ordering::Relaxed) > 0 {
                 // breadth-first order: the violations found so far are shortest ones; deeper layers add nothing to the verdict
                 caps.push(format!("{}: stopped after depth {} because violations were found", self.name, depth));
@@ -173,8 +177,18 @@ impl Explorer<'_> {
                 .reduce(|| (0, 0), |a, b| (a.0 + b.0, a.1 + b.1));
             replays += r.0;
             inv_evals += r.1;
-            if self.keep_states || self.invariant.is_some() {
+            if self.keep_states {
                 all_states.extend(next.iter().cloned());
+            } else {
+                // a few witnesses per layer for the evidence samples
+                let n = next.len();
+                for i in [0usize, n / 2, n.saturating_sub(1)] {
+                    if let Some(es) = next.get(i) {
+                        if all_states.len() < 64 {
+                            all_states.push(es.clone());
+                        }
+                    }
+                }
             }
             if seen.len() > self.max_states {
                 caps.push(format!("{}: state cap {} reached after completing depth {}", self.name, self.max_states, depth));
